@@ -46,7 +46,7 @@ ASSUMPTIONS = [
     "age == expiration exactly is unspecified; expiration=0 and unhashable arguments are not generated",
     "identity-hashed receivers in the base workload; ==-equal distinct receivers run as a separate family",
 ]
-MINIMUMS = {"monitor:required-hit": 20000, "monitor:right-key": 20000, "monitor:capacity": 20000, "evictions_forced": 2000, "expiry_boundary_crossed": 2000, "required_hit_after_reorder": 300, "histories_with_hash_colliding_keys": 100, "recursive_histories": 100, "expired_while_in_flight": 10}
+MINIMUMS = {"monitor:required-hit": 20000, "monitor:right-key": 20000, "monitor:capacity": 20000, "evictions_forced": 2000, "expiry_boundary_crossed": 2000, "required_hit_after_reorder": 300, "histories_with_hash_colliding_keys": 100, "recursive_histories": 100, "expired_while_in_flight": 10, "calls_from_inside_scopes": 6, "calls_after_a_cancelled_invocation": 3, "same_key_reentrant_histories": 2, "calls_of_callables_with_another_advertised_signature": 4}
 JOBS = {"quick": 4, "thorough": 16}
 LEVEL_TEXT = (
     "All histories up to the tier's length (quick 5-6, thorough 7) over 3 typed-distinct keys and 2 dyadic clock advances are run for every "
